@@ -1152,3 +1152,194 @@ pub async fn run_vanishing_user() {
     }
     sim::probe("vanished-account-refused");
 }
+
+// ---------------------------------------------------------------------------------------
+// "Every sequence of SASL frame kinds up to a bound": the scripted client sends 0-4 SASL frames
+// drawn from every kind a client or a server may send (init with the right or wrong credentials or
+// mechanism, response with a valid, tampered or garbled final message, mechanisms, challenge,
+// outcome ok, a frame without a body), reading what the listener answers in between, and then the
+// AMQP header and an open. The listener may open an AMQP connection for exactly one sequence: the
+// valid exchange and nothing else (PLAIN: [init]; SCRAM: [init, response]).
+
+#[derive(Clone, Copy, Debug, PartialEq)]
+enum K {
+    InitGood,
+    InitBadCreds,
+    InitOtherMech,
+    InitNoResponse,
+    ResponseGood,
+    ResponseTampered,
+    ResponseGarbage,
+    Mechanisms,
+    Challenge,
+    OutcomeOk,
+    Bodyless,
+}
+
+pub async fn run_frame_sequences() {
+    let mech = pick(&[Mech::Plain, Mech::Sha1, Mech::Sha256, Mech::Sha512]);
+    let scram = mech != Mech::Plain;
+    let kinds = [K::InitGood, K::InitGood, K::InitBadCreds, K::InitOtherMech, K::InitNoResponse, K::ResponseGood, K::ResponseGood, K::ResponseTampered, K::ResponseGarbage, K::Mechanisms, K::Challenge, K::OutcomeOk, K::Bodyless];
+    let n = choice(5) as usize;
+    let mut seq: Vec<K> = (0..n).map(|_| pick(&kinds)).collect();
+    // one run in four is the valid exchange with something in front of, inside or behind it
+    if choice(4) == 0 {
+        seq = if scram { vec![K::InitGood, K::ResponseGood] } else { vec![K::InitGood] };
+        if choice(3) != 0 {
+            let at = choice(seq.len() as u32 + 1) as usize;
+            seq.insert(at, pick(&kinds));
+        }
+    }
+    let valid_seq: Vec<K> = if scram { vec![K::InitGood, K::ResponseGood] } else { vec![K::InitGood] };
+    let (nab, nba, nd) = world::draw_net(false);
+    sim::set_config(format!("variant=frame-sequences listener-mechanism={} sequence={:?} {}", mech.name(), seq, nd));
+    sim::mark_nontrivial();
+    sim::set_panic_is_violation(true);
+    let (ps, ls, net) = SimStream::pair("peer", "listener", nab, nba);
+    let mon = wire::install(&net, ["peer", "listener"], [Models::none(), Models::none()]);
+    let mut peer = Peer::new("peer", ps);
+    let listener = listener_for(mech);
+    let accept_fut = sim::in_group(2, async { listener.accept(ls).await });
+    let seq2 = seq.clone();
+    let last_response_answered_a_challenge = std::cell::Cell::new(false);
+    let script = async {
+        let mut saw_ok = false;
+        // the exchange is valid only if every frame sent was the one a valid exchange has at that
+        // position and (SCRAM) the final message answered the listener's own challenge
+        let mut valid = seq2 == valid_seq;
+        peer.send_header(SASL_HEADER).await;
+        if peer.expect_header().await != Some(SASL_HEADER) {
+            peer.shutdown().await;
+            return (false, saw_ok);
+        }
+        if next_sasl(&mut peer, 60_000).await.map(|m| m.0) != Some(SASL_MECHANISMS) {
+            peer.shutdown().await;
+            return (false, saw_ok);
+        }
+        let cnonce: String = (0..18).map(|_| (b'a' + choice(26) as u8) as char).collect();
+        let bare = format!("n={},r={}", USER, cnonce);
+        let mut server_first: Option<String> = None;
+        for k in &seq2 {
+            if peer.eof {
+                break;
+            }
+            let frame = match k {
+                K::InitGood => {
+                    if scram {
+                        sasl_init(mech.name(), Some(format!("n,,{}", bare).into_bytes()))
+                    } else {
+                        sasl_init("PLAIN", Some(format!("\0{}\0{}", USER, PASS).into_bytes()))
+                    }
+                }
+                K::InitBadCreds => {
+                    if scram {
+                        sasl_init(mech.name(), Some(format!("n,,n={},r={}", pick(&["alic", "bob", ""]), cnonce).into_bytes()))
+                    } else {
+                        sasl_init("PLAIN", Some(format!("\0{}\0{}", USER, wrong_password()).into_bytes()))
+                    }
+                }
+                K::InitOtherMech => sasl_init(pick(&["ANONYMOUS", "EXTERNAL", "SCRAM-SHA-224", ""]), Some(format!("\0{}\0{}", USER, PASS).into_bytes())),
+                K::InitNoResponse => sasl_init(mech.name(), None),
+                K::ResponseGood | K::ResponseTampered => {
+                    let final_msg = match (&server_first, scram) {
+                        (Some(sf), true) => {
+                            let nonce = attr(sf, 'r').unwrap_or("").to_string();
+                            let salt = attr(sf, 's').and_then(unb64).unwrap_or_default();
+                            let iters: u32 = attr(sf, 'i').and_then(|s| s.parse().ok()).unwrap_or(1);
+                            let without_proof = format!("c=biws,r={}", nonce);
+                            let auth_message = format!("{},{},{}", bare, sf, without_proof);
+                            let mut proofs = scram_proofs(mech, PASS, &salt, iters.min(100_000), &auth_message);
+                            if *k == K::ResponseTampered {
+                                let i = choice(proofs.client_proof.len() as u32) as usize;
+                                proofs.client_proof[i] ^= 1 << choice(8);
+                            }
+                            last_response_answered_a_challenge.set(*k == K::ResponseGood);
+                            format!("{},p={}", without_proof, b64(&proofs.client_proof))
+                        }
+                        _ => {
+                            // no challenge to answer: whatever is sent is not a valid final message
+                            valid = false;
+                            last_response_answered_a_challenge.set(false);
+                            format!("c=biws,r={}x,p=AAAA", cnonce)
+                        }
+                    };
+                    sasl_response(final_msg.into_bytes())
+                }
+                K::ResponseGarbage => sasl_response(pick(&["", "p=", "c=biws", ",,,", "\u{0}"]).as_bytes().to_vec()),
+                K::Mechanisms => sasl_mechanisms(&["PLAIN", mech.name()]),
+                K::Challenge => sasl_challenge(b"r=abc,s=c2FsdA==,i=1".to_vec()),
+                K::OutcomeOk => sasl_outcome(0, None),
+                K::Bodyless => {
+                    peer.send_raw(&peer::frame_bytes(1, 0, &[])).await;
+                    continue;
+                }
+            };
+            if matches!(k, K::InitGood | K::InitBadCreds | K::InitOtherMech | K::InitNoResponse) {
+                // a challenge, if any, answers this init
+                server_first = None;
+            }
+            peer.send_sasl(&frame).await;
+            // what the listener says to that
+            while let Some((code, p)) = next_sasl(&mut peer, 300).await {
+                match code {
+                    SASL_CHALLENGE => {
+                        server_first = Some(String::from_utf8_lossy(&bin_of(p.field(0)).unwrap_or_default()).to_string());
+                        break;
+                    }
+                    SASL_OUTCOME => {
+                        if p.field(0).as_u32() == Some(0) {
+                            saw_ok = true;
+                        }
+                        break;
+                    }
+                    _ => {}
+                }
+            }
+        }
+        sim::fault("sasl-frame-sequence");
+        peer.send_header(AMQP_HEADER).await;
+        peer.send(0, &peer::open("sequencer", None, None, None)).await;
+        let _ = peer.expect_header().await;
+        let _ = peer.expect(wire::OPEN).await;
+        (valid, saw_ok)
+    };
+    let (accepted, (valid, saw_ok)) = match sim::op("sasl frame sequence", world::join2(accept_fut, script)).await {
+        Some(x) => x,
+        None => return,
+    };
+    if sim::has_violation() {
+        return;
+    }
+    mon.borrow_mut().sync();
+    let wrote_amqp_open = mon.borrow().ends[1].open.is_some();
+    // Soundness is what is judged for arbitrary sequences: a connection may be opened only if the
+    // sequence *ends* with a valid exchange (the peer proved the credentials last; whether an
+    // exchange restarted by a second init is tolerated is the implementation's choice, and is
+    // not judged), and outcome ok may be said only once some prefix ends with one (frames that follow
+    // it, where the AMQP header is due, make the connection fail, not the outcome wrong).
+    // Completeness is judged for the valid exchange alone.
+    let proved_last = seq.ends_with(&valid_seq) && (valid || last_response_answered_a_challenge.get() || !scram);
+    let ok_deserved = (1..=seq.len()).any(|i| seq[..i].ends_with(&valid_seq));
+    if (!proved_last && (accepted.is_ok() || wrote_amqp_open)) || (saw_ok && !ok_deserved) {
+        sim::violation(
+            "accepted-without-authentication",
+            format!("SASL frame sequence {:?} against {}: accept ok = {}, outcome ok seen = {}, AMQP open written = {}", seq, mech.name(), accepted.is_ok(), saw_ok, wrote_amqp_open),
+        );
+        return;
+    }
+    if valid {
+        match &accepted {
+            Ok(_) => sim::probe("valid-sequence-accepted"),
+            Err(e) => {
+                sim::violation("honest-client-refused", format!("the valid {} exchange {:?} was refused: {}", mech.name(), seq, e));
+                return;
+            }
+        }
+    } else {
+        sim::probe("invalid-sequence-refused");
+    }
+    if let Ok(mut h) = accepted {
+        peer.send(0, &peer::close(None)).await;
+        let _ = tokio::time::timeout(std::time::Duration::from_secs(30), h.on_close()).await;
+    }
+}
